@@ -1082,31 +1082,41 @@ Proof.
 Qed.
 
 Lemma pool_update_fields s p :
-  let p' := pool_update false s p in
-  txns p' = txns p ∧ v2txns p' = omap (conv1 s) (v2txns p) ∧ weight p' = weight p ∧
-  last_rev p' = last_rev p ∧ last_rev2 p' = last_rev2 p.
+  txns (pool_update false s p) = txns p ∧ v2txns (pool_update false s p) = omap (conv1 s) (v2txns p) ∧
+  weight (pool_update false s p) = weight p ∧
+  last_rev (pool_update false s p) = last_rev p ∧ last_rev2 (pool_update false s p) = last_rev2 p.
 Proof.
-  simpl. splits; auto. unfold pool_update, conv1, conv_of. simpl.
-  induction (v2txns p) as [|t l IH]; simpl; [done|].
-  destruct (keep_tx (s_num s) _); simpl; by rewrite IH.
+  splits; auto. unfold pool_update, conv1, conv_of. cbn [v2txns set_v2txns].
+  induction (v2txns p) as [|t l IH]; [done|]. cbn [map List.filter omap list_omap].
+  destruct (keep_tx (s_num s) _); [by f_equal|done].
 Qed.
 
 Lemma conv_path_snoc steps s t : conv_path (steps ++ [s]) t = conv_path steps t ≫= conv1 s.
 Proof. unfold conv_path. by rewrite foldl_app. Qed.
 
-Lemma foldl_pool_update steps : ∀ p,
-  let p' := foldl (λ p s, pool_update false s p) p steps in
-  txns p' = txns p ∧ v2txns p' = omap (conv_path steps) (v2txns p) ∧ weight p' = weight p ∧
-  last_rev p' = last_rev p ∧ last_rev2 p' = last_rev2 p.
+Lemma omap_id_some (l : list atx) : omap (λ t, Some t) l = l.
+Proof. induction l as [|t l IH]; [done|]. cbn. by f_equal. Qed.
+
+Lemma omap_omap_bind (f g : atx → option atx) (l : list atx) : omap g (omap f l) = omap (λ t, f t ≫= g) l.
 Proof.
-  induction steps as [|s steps IH] using rev_ind; intros p; simpl.
-  - splits; auto. unfold conv_path. simpl. induction (v2txns p) as [|t l IHl]; simpl; [done|]. by f_equal.
-  - rewrite foldl_app. simpl. destruct (IH p) as (H1&H2&H3&H4&H5).
+  induction l as [|t l IH]; [done|]. cbn. destruct (f t) as [t0|]; cbn; [|done].
+  destruct (g t0); cbn; by rewrite <- IH.
+Qed.
+
+Lemma foldl_pool_update steps : ∀ p,
+  txns (foldl (λ p s, pool_update false s p) p steps) = txns p ∧
+  v2txns (foldl (λ p s, pool_update false s p) p steps) = omap (conv_path steps) (v2txns p) ∧
+  weight (foldl (λ p s, pool_update false s p) p steps) = weight p ∧
+  last_rev (foldl (λ p s, pool_update false s p) p steps) = last_rev p ∧
+  last_rev2 (foldl (λ p s, pool_update false s p) p steps) = last_rev2 p.
+Proof.
+  induction steps as [|s steps IH] using rev_ind; intros p.
+  - cbn [foldl]. splits; auto. unfold conv_path. cbn [foldl]. by rewrite omap_id_some.
+  - rewrite foldl_app. cbn [foldl]. destruct (IH p) as (H1&H2&H3&H4&H5).
     destruct (pool_update_fields s (foldl (λ p s, pool_update false s p) p steps)) as (G1&G2&G3&G4&G5).
-    simpl in *. rewrite G1, G2, G3, G4, G5, H1, H2, H3, H4, H5. splits; auto.
-    induction (v2txns p) as [|t l IHl]; simpl; [done|].
-    rewrite conv_path_snoc. destruct (conv_path steps t) as [t0|]; simpl; [|done].
-    destruct (conv1 s t0); simpl; by rewrite IHl.
+    rewrite G1, G2, G3, G4, G5, H1, H2, H3, H4, H5. splits; auto.
+    rewrite omap_omap_bind. apply list_omap_ext. apply Forall2_same_length_lookup. split; [done|].
+    intros i x y Hx Hy. rewrite Hx in Hy. inversion Hy; subst. by rewrite conv_path_snoc.
 Qed.
 
 Lemma goods'_app L : ∀ a b G,
@@ -1115,7 +1125,7 @@ Proof.
   induction a as [|t a IH]; intros b G; simpl.
   - f_equal. set_solver.
   - destruct (check L (MS ∅ G) t); simpl; rewrite IH; [|done]. do 2 f_equal.
-    rewrite list_to_set_app_L. set_solver.
+    rewrite list_to_set_app_L. f_equal. symmetry. apply (assoc_L (∪)).
 Qed.
 
 Lemma vseq_sp_exact L : ∀ ts m m', vseq L m ts = Some m' →
@@ -1183,11 +1193,11 @@ Proof.
   (* split the good transactions into the v1 and the v2 part *)
   unfold goods in Ht. rewrite omap_app in Ht.
   assert (E1 : omap (moved steps) (txns q) = txns q).
-  { clear -Hk1. induction (txns q) as [|a l IH]; simpl; [done|]. inversion Hk1; subst.
-    unfold moved at 1. rewrite H1. simpl. by rewrite IH. }
+  { clear -Hk1. induction (txns q) as [|a l IH]; [done|]. inversion Hk1; subst.
+    cbn. unfold moved at 1. rewrite H1. cbn. f_equal. by apply IH. }
   assert (E2 : omap (moved steps) (v2txns q) = omap (conv_path steps) (v2txns q)).
-  { clear -Hk2. induction (v2txns q) as [|a l IH]; simpl; [done|]. inversion Hk2; subst.
-    unfold moved at 1. rewrite H1. destruct (conv_path steps a); simpl; by rewrite IH. }
+  { clear -Hk2. induction (v2txns q) as [|a l IH]; [done|]. inversion Hk2; subst.
+    cbn. unfold moved at 1. rewrite H1. destruct (conv_path steps a); cbn; [f_equal|]; by apply IH. }
   rewrite E1, E2, goods'_app in Ht.
   (* sequential cleanliness of the old order *)
   pose proof (vseq_clean _ _ _ _ Hv) as Hcl. simpl in Hcl. apply clean_app in Hcl as [Hcl1 Hcl2].
